@@ -15,8 +15,9 @@ LEVEL = "exploration"
 TIMEOUT_S = 120.0
 RULE = ("one run = seeded history of <= 16 operations (call / call_and_shelve().get() / check_call_in_cache / call with "
         "expires_after, process restart with another compress setting, clear, reduce_size to zero, MemorizedFunc.clear, "
-        "clock advance) over 1-3 generated functions drawn from all parameter-kind layouts with <= 4 parameters "
-        "(+ bound methods, a partial, an async function), argument values from a near-collision pool (1, 1.0, True, '1', "
+        "clock advance, truncation of a stored result file) over 1-3 generated functions drawn from all parameter-kind layouts "
+        "with <= 4 parameters (+ bound methods, three partials that share one place in the store, an async function), in 15 % of "
+        "the histories the same functions are cached at two store locations by the same processes, argument values from a near-collision pool (1, 1.0, True, '1', "
         "b'1', (1,), [1], {1}, frozenset({1}), dicts/sets rebuilt in another order, > 8 KiB strings), call forms "
         "positional <-> keyword; distinct = digest of the observation sequence; non-trivial = at least one restart or "
         "eviction and one expected cache hit")
@@ -48,8 +49,10 @@ def run_case(case, oracle=None):
         _, cls, detail, sig = mine[0]
         verdict = {"class": cls, "detail": detail, "sig": sig}
     return {"verdict": verdict, "digest": digest, "shape": digest[:16], "steps": len(case["hist"]["ops"]), "switches": 0,
-            "sim_time": 0.0, "faults": {"process_restart": stats["restarts"], "eviction_or_clear": stats["evictions"]},
+            "sim_time": 0.0, "faults": {k_: v_ for k_, v_ in {"process_restart": stats["restarts"], "eviction_or_clear": stats["evictions"],
+                                                      "stored_result_truncated": stats["damaged_entries"]}.items() if v_},
             "probes": {"calls": stats["calls"], "expected_hits": stats["hits_expected"], "check_call_in_cache": stats["checks"],
+                       "calls_at_second_store_location": stats["calls_at_second_location"], "switches_between_partials": stats["partial_switches"],
                        "other_oracle_findings": len(findings) - len(mine)},
             "nontrivial": bool((stats["restarts"] or stats["evictions"]) and stats["hits_expected"]),
             "sample": {"funcs": [mm.sig_text(case["hist"], f["name"]) for f in case["hist"]["funcs"]],
